@@ -181,6 +181,7 @@ void LogContainer_read(struct LogContainer *lc, struct AbstractFile *af)
     lc->compressedFileSize = vb_nondet_u32(); lc->compressedFile.size = lc->compressedFileSize;
     lc->b_ObjectHeaderBase.objectSize = vb_nondet_u32();
     int k = vb_nondet_int();
+    { int64_t adv = (int64_t)(vb_nondet_u32()); if (k == 0) { __CPROVER_assume(adv >= 16); } c->cg = c->cg + adv; }   /* C10 R5: a decode that ends good consumed at least the base header; never moves backwards (R4) */
     if (k == 0) c->cstate = IOS_goodbit;                       /* whole container available */
     else if (k == 1) c->cstate = IOS_eofbit | IOS_failbit;     /* cut short */
     else if (k == 2) { c->cstate = IOS_eofbit | IOS_failbit; vb_exc = VB_EXC_BLF; }
